@@ -1,6 +1,8 @@
 """C02  Session self-heals: never stuck, nothing in the past blocks re-establishment."""
 import random
 
+from vlib import budget
+
 from vlib import session as S
 from vlib import wire
 from vlib.session import Monitor, parse_event
@@ -24,7 +26,7 @@ CFGS = {
 }
 DEPTH = {'quick': {'default': (3, 6), 'small': (3, 5), 'retry10': (3, 5)}, 'thorough': {'default': (4, 8), 'small': (4, 8), 'retry10': (4, 8)}}
 PARTS = {'quick': 4, 'thorough': 5}
-WALKS = {'quick': (256, 250), 'thorough': (3200, 600)}
+WALKS = {'quick': (256, 250), 'thorough': (10000, 600)}
 BUDGET = {'quick': 50, 'thorough': 1000}
 PEER_HOLDS = [90, 0, 3, 180]
 _fresh = {}
@@ -195,6 +197,8 @@ def run_shard(sh):
             # hostile well-framed messages (mutated unit-test corpus) among the peer's messages: whatever they do, the session heals
             alpha = ['OPEN', 'KA', 'OPEN_h9', 'OPEN_h0', 'NOTI_CEASE', 'BADLEN', 'UPD1'] + S.fuzz_alphabet(rng, sh['fuzz'])
         for i in range(sh['n']):
+            if budget.expired():
+                break
             r = S.random_walk(cfg, [OpMonitor], alpha, rng, rng.randint(20, sh['length']), multi=False,
                               weights={'TICK': 5, 'ACCEPT': 4, 'REFUSE': 2, 'STOP': 0.3, 'START': 1.5, 'OPEN': 3, 'KA': 3,
                                        'OPEN_h1': 2, 'OPEN_h0': 2, 'OPEN_h2': 2, 'NOTI_VER': 2, 'PEERRESET': 2})
@@ -206,7 +210,7 @@ def run_shard(sh):
             res['distinct'].append('walk|%d|%d' % (sh['seed'], i))
             if i == 0:
                 res['samples'].append(dict(cfg=sh['cfg'], walk_len=len(r.seq), walk_head=r.seq[:30], peer_hold=sh['peer_hold']))
-        res['counters'] = dict(walks=sh['n'])
+        res['counters'] = dict(walks=res['evaluations'])
     res['counters'].update(prefixes_continued=stats['continued'], sessions_stable=stats['stable'], opens_compared=stats['opens_compared'],
                            second_faults_recovered_from=stats['second_faults'], late_close_completions=stats['late_closes'])
     res['sets']['close_completion'] = ['late (separate event)' if sh.get('defer') else 'same instant']
